@@ -201,15 +201,15 @@ Theorem C03b_roundtrip_wide_partial : forall tblb TBL L o tag attrs ch bs,
 Proof. exact roundtrip_wide. Qed.
 Print Assumptions C03b_roundtrip_wide_partial.
 
-(* ... the language forced or found by the NUMERIC public identifier the encoder wrote (lang_choice): the abstract document
-   of C06's wide theorem is kept in view (Proofs/ConvWideUnforced.v), its wd_pub is PubNum (header_public_id e) whenever the
-   identifier is written as a number.  A public id written as a string is covered only when the language is forced. *)
+(* ... the language forced or found by the public identifier the encoder wrote (lang_choiceW: numeric id, or the textual id in
+   the string table compared without regard to case): the abstract document of C06's wide theorem is kept in view
+   (Proofs/ConvWideUnforced.v). *)
 Theorem C03b_roundtrip_wide_unforced_partial : forall tblb TBL L o tag attrs ch bs forced,
   let e := EncWbxml.enc_env (EncWbxmlDenote2.to_blang L) o in
   EncWbxmlAbs.plain_env e = true -> EncWbxmlDenote2.vals_ok L = true -> l_exts L = None ->
   EncWbxmlTblOk.tree_ok3 L 0 (EncWbxml.NElt tag attrs ch) = true ->
   find (fun x => l_id x =? l_id L) TBL = Some L ->
-  lang_choice TBL L (EncWbxml.header_public_id e) forced ->
+  lang_choiceW TBL L e forced ->
   EncWbxml.o_version o < 4 -> EncWbxml.header_public_id e < 4294967296 -> EncWbxml.header_public_id e <> 0 ->
   (match EncWbxmlAbs.header_pid e with Some p => EncWbxmlDenote2.okb p = true | None => True end) ->
   EncWbxml.len bs < 4294967296 ->
